@@ -265,6 +265,63 @@ def run_channel(item):
                         bad({"class": "sample_properties_wrong_file"}, "get_properties(sample=%d) does not match %s" % (k, rel), query=[k])
             elif res != "ioerror":
                 bad({"class": "sample_properties_no_file"}, "get_properties(sample=%d) -> %s, but no file holds it" % (k, res), query=[k])
+        # --- a transient failure to open one data file: the call may raise, but afterwards the reader must
+        #     again present the same picture (no stale cache of another file's index)
+        full_model = model.runs(lo, hi, cfg)
+        real_file = h5py.File
+        for fail_at in range(0, 4):
+            state = {"n": 0}
+
+            class FlakyFile(real_file):
+                def __init__(self, *a, **k):
+                    i_ = state["n"]
+                    state["n"] += 1
+                    if i_ == fail_at:
+                        raise OSError(11, "unable to lock file (injected, transient)")
+                    super().__init__(*a, **k)
+
+            r3 = drf.DigitalRFReader(tops)
+            r3.read(lo, lo, ch)  # a first successful query, so that a file is cached
+            h5py.File = FlakyFile
+            try:
+                try:
+                    r3.read(lo, hi, ch)
+                except OSError:
+                    pass
+            finally:
+                h5py.File = real_file
+            part["evaluations"] += 1
+            for (qs, qe) in [(lo, hi)] + [(s_, s_) for s_ in edges[::3]]:
+                try:
+                    got = rf.read_runs(r3, ch, qs, qe)
+                except Exception:  # noqa: BLE001
+                    # a reader that keeps raising after an I/O failure is outside the statement (the unchanged
+                    # reader does: ValueError "Invalid dataset identifier" until another file is read);
+                    # what is judged is every query that *returns*
+                    part["outcomes"]["raises_after_open_failure"] += 1
+                    continue
+                err = rf.compare_runs(cfg, got, model.runs(qs, qe, cfg))
+                if err:
+                    bad({"class": "read_after_transient_open_failure"}, "after a failed open (#%d) read(%d,%d): %s" % (fail_at, qs, qe, err), query=[qs, qe])
+                    break
+            r3.close()
+        # --- reader opened with a relative path, then the process changes its working directory
+        if not isinstance(tops, list):
+            cwd = os.getcwd()
+            try:
+                os.chdir(os.path.dirname(top))
+                r4 = drf.DigitalRFReader(os.path.basename(top))
+                before = rf.read_runs(r4, ch, lo, hi)
+                os.chdir("/")
+                after = rf.read_runs(r4, ch, lo, hi)
+                b4 = r4.get_bounds(ch)
+                part["evaluations"] += 2
+                if rf.compare_runs(cfg, before, full_model) or rf.compare_runs(cfg, after, full_model) or tuple(b4) != (lo, hi):
+                    bad({"class": "relative_path_reader_after_chdir"}, "reader opened with a relative path: read before chdir %s, after chdir %s, bounds %r" % (
+                        [(k, len(v)) for k, v in before], [(k, len(v)) for k, v in after], b4))
+                r4.close()
+            finally:
+                os.chdir(cwd)
         reader.close()
         part["traces"] += 1
         part["nontrivial"].add(core.canon((cfgd, ops)))
